@@ -12,6 +12,8 @@ misses), always revert. (3) store /verif/seeded/<name>/{patch.diff, demo, notes.
 """
 import json, os, shutil, subprocess, sys, time
 
+os.environ["VERIF_EVIDENCE_DIR"] = "/tmp/verif-evidence-scratch"  # runs on modified trees must not rewrite /verif/evidence
+
 ENV = dict(os.environ, GOFLAGS="-mod=mod", GOPROXY="off", GOSUMDB="off")
 
 
